@@ -57,7 +57,12 @@ def to_wire(obj: Any) -> Any:
 
 
 def outcome_of(exc: Optional[BaseException]) -> str:
-    return "refuse:" + err_kind(exc) if exc is not None else "reuse"
+    if exc is None:
+        return "reuse"
+    kind = err_kind(exc)
+    if kind.startswith("value-error:"):      # subclasses (IncompatibleComponentError, …) are ValueErrors
+        kind = "value-error"
+    return "refuse:" + kind
 
 
 @contextlib.contextmanager
@@ -156,6 +161,7 @@ def gen_domain_string(rng: random.Random) -> List[str]:
 
 class C11(Property):
     ID = "C11"
+    USES_TABLES = True     # the driver re-adds module components with C14's model over the regenerated tables
     SHAPE = [
         ("antismash/common/hmmscan_refinement.py", "HMMResult.__init__"),
         ("antismash/common/hmmscan_refinement.py", "HMMResult.add_internal_hits"),
@@ -215,6 +221,7 @@ class C11(Property):
         ("antismash/detection/sideloader/data_structures.py", "SideloadedResults.to_json"),
         ("antismash/detection/sideloader/data_structures.py", "SideloadedResults.from_json"),
         ("antismash/detection/sideloader/__init__.py", "regenerate_previous_results"),
+        ("antismash/detection/sideloader/__init__.py", "is_enabled"),
         ("antismash/common/hmmer.py", "HmmerHit.__post_init__"),
         ("antismash/common/hmmer.py", "HmmerHit.to_json"),
         ("antismash/common/hmmer.py", "HmmerHit.from_json"),
@@ -250,9 +257,9 @@ class C11(Property):
             "regeneration attempted; distinct by canonical case")
     TRUSTED = [
         "orjson (dict order preserved, shortest round-trip float text); Python float <-> exact decimal of its repr",
-        "Module.from_json re-adds components through add_component: modelled as the abstract predicate "
-        "`ModRules.accepts` (property C14 owns it); the driver instantiates it with `accepts = true` and the "
-        "correspondence runs the real re-adding on modules built by the real build_modules_for_cds/combine_modules",
+        "Module.from_json re-adds components through add_component: `ModRules.accepts`, instantiated in the driver "
+        "and in the `…_built/_combined/_generated` theorems with C14's model (`c14Rules`, regenerated tables); "
+        "patched module JSON (extra starter, duplicate loader, reversed components) checks the refusals",
         "text forms inside qualifiers / TTA codons: str(location)/location_from_string is proved (C04.string_roundtrip) "
         "for exact positions; fuzzy positions (<5, >9) are not generated",
         "JSON values of an unexpected type, NaN/inf scores, extra qualifiers on protoclusters, T2PKS qualifiers and "
@@ -312,7 +319,8 @@ class C11(Property):
         mut = None
         if rng.random() < self.MUT_RATE:
             mut = rng.choice(["schema:3", "schema:5", "schema:none", "schema:missing", "record_id", "unknown_cds",
-                              "drop_first_in_cds", "displace_kid", "unknown_profile", "schema:str"])
+                              "drop_first_in_cds", "displace_kid", "unknown_profile", "schema:str",
+                              "second_starter", "duplicate_loader", "swap_components", "empty_locus"])
         return {"kind": "nrpspks", "record_id": rng.choice(["rec1", "NC_003888.3", "r"]), "genes": genes, "mut": mut}
 
     def gen_hmmdet(self, rng: random.Random) -> Dict[str, Any]:
@@ -438,8 +446,15 @@ class C11(Property):
         if rng.random() < self.MUT_RATE:
             mut = rng.choice(["schema:2", "schema:missing", "record_id", "topology", "drop_details", "drop_nl",
                               "drop_description", "drop_configuration", "empty_json", "bad_tool_name", "str_detail"])
+        # sideloading requested again on the reuse run: the same annotations, or changed ones
+        request = None
+        if mut is None and rng.random() < 0.5:
+            request = rng.choice(["same", "same", "shift_area", "drop_area", "relabel", "tool_version", "extra_area",
+                                  "detail"])
+        elif mut in ("schema:2", "record_id") and rng.random() < 0.3:
+            request = "same"
         return {"kind": "sideload", "record": {"id": rng.choice(["rec1", "acc.2"]), "length": length, "circular": circular},
-                "tool": tool, "subs": subs, "protos": protos, "mut": mut}
+                "tool": tool, "subs": subs, "protos": protos, "mut": mut, "request": request}
 
     def gen_hmmer(self, rng: random.Random) -> Dict[str, Any]:
         saved = {"max_evalue": rng.choice(["0.01", "0.1", "1e-05", "1e-10"]), "min_score": rng.choice(["0.0", "25.0", "50.0"])}
@@ -722,8 +737,6 @@ class C11(Property):
             applied = self.mutate_nrps(j_in, mut)
             if mut == "record_id":
                 cur_record_id = case["record_id"] + "_other"
-        names = sorted(n for group in mi.CLASSIFICATIONS.values() for n in group)
-        self._classifiable = names
         obs: Dict[str, Any] = {"json_in": to_wire(j_in), "mutated": bool(mut) and applied,
                                "ctx": {"record_id": cur_record_id, "cds_names": [g["name"] for g in case["genes"]]},
                                "n_modules": sum(len(r.modules) for r in x.cds_results.values()),
@@ -776,6 +789,23 @@ class C11(Property):
             if mut == "unknown_profile":
                 for mod in res["modules"]:
                     mod["components"][0]["domain"]["hit_id"] = "NoSuchProfile"
+                    return True
+            if mut == "empty_locus":
+                for mod in res["modules"]:
+                    mod["components"][-1]["locus"] = ""
+                    return True
+            if mut in ("second_starter", "duplicate_loader", "swap_components"):
+                # stored modules that may no longer be acceptable to add_component
+                for mod in res["modules"]:
+                    comps = mod["components"]
+                    if mut == "second_starter":
+                        comps.append({"domain": {"hit_id": "PKS_KS", "query_start": 990, "query_end": 999,
+                                                 "evalue": 1e-9, "bitscore": 30.5}, "locus": comps[-1]["locus"]})
+                    elif mut == "duplicate_loader":
+                        comps.append({"domain": {"hit_id": "AMP-binding", "query_start": 990, "query_end": 999,
+                                                 "evalue": 1e-9, "bitscore": 30.5}, "locus": comps[-1]["locus"]})
+                    else:
+                        comps.reverse()
                     return True
             if mut == "displace_kid":
                 for hit in res["domain_hmms"]:
@@ -954,13 +984,16 @@ class C11(Property):
                                                                      SubRegionAnnotation, Tool)
         rec_a = self.side_record(case)
         origin = len(rec_a) if rec_a.is_circular() else None
-        t = case["tool"]
-        try:
-            tool = Tool(t["name"], t["version"], t["description"], copy.deepcopy(t["configuration"]))
+
+        def build(tool_d: Dict[str, Any], sub_ds: List[Dict[str, Any]], proto_ds: List[Dict[str, Any]]) -> Any:
+            tool = Tool(tool_d["name"], tool_d["version"], tool_d["description"], copy.deepcopy(tool_d["configuration"]))
             subs = [SubRegionAnnotation(s["start"], s["end"], s["label"], tool, copy.deepcopy(s["details"]),
-                                        circular_origin=origin) for s in case["subs"]]
+                                        circular_origin=origin) for s in sub_ds]
             protos = [ProtoclusterAnnotation(p["core_start"], p["core_end"], p["product"], tool, copy.deepcopy(p["details"]),
-                                             p["nl"], p["nr"], circular_origin=origin) for p in case["protos"]]
+                                             p["nl"], p["nr"], circular_origin=origin) for p in proto_ds]
+            return subs, protos
+        try:
+            subs, protos = build(case["tool"], case["subs"], case["protos"])
         except ValueError as exc:
             return {"skip": f"not constructible: {exc}"[:200]}
         x = SideloadedResults(rec_a.id, subs, protos)
@@ -984,9 +1017,31 @@ class C11(Property):
         except Exception as exc:  # pylint: disable=broad-except
             return {"skip": f"original cannot build its areas: {type(exc).__name__}: {exc}"[:200]}
 
+        # the current run's own sideload options (the loader is stubbed: file parsing is not C11's subject)
+        request = case.get("request")
+        options = SimpleNamespace(sideload=[], sideload_simple="", sideload_cds_markers=[], sideload_cds_padding=20000)
+        requested = None
+        if request:
+            tool_d, sub_ds, proto_ds = self.requested_variant(case, request)
+            try:
+                req_subs, req_protos = build(tool_d, sub_ds, proto_ds)
+            except ValueError as exc:
+                return {"skip": f"requested annotations not constructible: {exc}"[:200]}
+            requested = SideloadedResults(cur_record_id, req_subs, req_protos)
+            options.sideload = ["annotations.json"]
+            obs["requested"] = to_wire(orjson.loads(orjson.dumps(requested.to_json())))
+            if req_subs != subs or req_protos != protos:
+                obs["mutated"] = True
+                obs["request_changed"] = True
+        saved_loader = sideloader.load_single_record_annotations
+        sideloader.load_single_record_annotations = lambda *a, **k: requested
+
         def regen(j: Any) -> Any:
-            return sideloader.regenerate_previous_results(j, self.side_record(case, cur_record_id, cur_circular), None)
-        self.cycle(obs, j_in, regen, lambda y: y.to_json())
+            return sideloader.regenerate_previous_results(j, self.side_record(case, cur_record_id, cur_circular), options)
+        try:
+            self.cycle(obs, j_in, regen, lambda y: y.to_json())
+        finally:
+            sideloader.load_single_record_annotations = saved_loader
         if obs.get("outcome") == "reuse":
             try:
                 obs["areas"] = self.side_predicted(obs["_obj"])
@@ -996,6 +1051,37 @@ class C11(Property):
                 obs["features_equal"] = False
         obs.pop("_obj", None)
         return obs
+
+    @staticmethod
+    def requested_variant(case: Dict[str, Any], request: str) -> Tuple[Any, Any, Any]:
+        tool = copy.deepcopy(case["tool"])
+        subs = copy.deepcopy(case["subs"])
+        protos = copy.deepcopy(case["protos"])
+        if request == "shift_area":
+            if subs:
+                subs[0]["end"] += 1
+            elif protos:
+                protos[0]["nr"] += 1
+        elif request == "drop_area":
+            if subs:
+                subs.pop()
+            elif protos:
+                protos.pop()
+        elif request == "relabel":
+            if subs:
+                subs[-1]["label"] += "x"
+            elif protos:
+                protos[-1]["product"] += "x"
+        elif request == "tool_version":
+            tool["version"] += ".1"
+        elif request == "extra_area":
+            subs.append({"start": 1, "end": 9, "label": "new", "details": {}})
+        elif request == "detail":
+            if protos:
+                protos[0]["details"] = {"changed": ["1"]}
+            elif subs:
+                subs[0]["details"] = {"changed": ["1"]}
+        return tool, subs, protos
 
     @staticmethod
     def mutate_side(j: Dict[str, Any], mut: str) -> bool:
@@ -1247,9 +1333,9 @@ class C11(Property):
             return {"kind": kind, "has_prev": case["has_prev"], "regen": regen, "in_all": case["in_all"],
                     "enabled": case["enabled"]}
         line: Dict[str, Any] = {"kind": kind, "json": obs["json_in"], "ctx": obs.get("ctx", {})}
-        if kind == "nrpspks":
-            line["classifiable"] = self._classifiable
-        elif kind == "hmmdet":
+        if kind == "sideload" and "requested" in obs:
+            line["requested"] = obs["requested"]
+        if kind == "hmmdet":
             line["opts"] = obs["opts"]
         elif kind == "hmmer":
             line.update({"max_evalue": obs["max_evalue"], "min_score": obs["min_score"], "op": case["op"]})
@@ -1298,6 +1384,7 @@ class C11(Property):
                 # the reused hit list must be the stored hits that satisfy the current thresholds
                 pass
         spec_ok = True
+        known = None
         may = drv.get("may_reuse", True)
         if outcome == "reuse":
             if not may:
@@ -1314,9 +1401,12 @@ class C11(Property):
             if obs.get("attached_bytes_equal") is False and not mutated:
                 spec_ok = False
                 detail = detail or "JSON written after adding the protoclusters to the record differs"
-            if kind == "hmmer" and obs.get("hits_out") != drv.get("reference"):
+            if kind == "hmmer" and obs.get("hits_out") != drv.get("fresh"):
+                # the reused hits must be what a fresh run under the current thresholds reports
                 spec_ok = False
-                detail = detail or "reused hits are not the stored hits within the current thresholds"
+                detail = detail or "reused hits differ from the hits a fresh run under the current thresholds reports"
+                if drv.get("on_boundary") and obs.get("hits_out") == drv.get("reference"):
+                    known = "KF-C11-refilter-boundary"
         elif not mutated:
             spec_ok = False
             detail = detail or f"unchanged settings but the results were not reused: {outcome} {obs.get('msg', '')}"
@@ -1327,7 +1417,11 @@ class C11(Property):
         tags = (kind, kind + ":" + str(outcome).split(":")[0], "mutated" if mutated else "same-settings")
         if case.get("mut"):
             tags += (f"{kind}:mut:{case['mut'].split(':')[0]}",)
-        return Judgement(corr, spec_ok, in_scope=in_scope, nontrivial=size > 0, tags=tags, detail=detail)
+        if case.get("request"):
+            tags += (f"{kind}:request:{case['request']}",)
+        if known:
+            in_scope = False     # outside the hypothesis of hmmer_refilter_matches_fresh_partial
+        return Judgement(corr, spec_ok, in_scope=in_scope, known=known, nontrivial=size > 0, tags=tags, detail=detail)
 
     def judge_tta(self, case: Dict[str, Any], obs: Dict[str, Any], drv: Dict[str, Any]) -> Judgement:
         corr, spec_ok, detail = True, True, ""
